@@ -671,12 +671,13 @@ pub fn vmap_usize_u64(v: Vec<usize>) -> (r: Vec<u64>)
     proof { assert(out@ =~= seq_u64_of(v@)); }
     out
 }
-/// `v.into_iter().map(f).collect()` where the closure `f` (the repository's text, with the
-/// `ensures w == i as usize` woven in by the R12 rewrite) is an element-wise cast (verified, not assumed)
+/// `v.into_iter().map(f).collect()` where the closure `f` is the repository's text (the R12 rewrite
+/// re-inserts its body and declares `ensures w == (<body>)`); that the closure is the element-wise
+/// cast is the named call-site obligation [closure_is_the_cast] (verified, not assumed)
 pub fn vmap_u64_usize_with<F: Fn(u64) -> usize>(v: Vec<u64>, f: F) -> (r: Vec<usize>)
     requires
         forall|a: u64| call_requires(f, (a,)),
-        forall|a: u64, b: usize| call_ensures(f, (a,), b) ==> b == a as usize,
+        forall|a: u64, b: usize| call_ensures(f, (a,), b) ==> b == a as usize, /*@PL:closure_is_the_cast*/
     ensures r@ == seq_usize_of(v@),
 {
     let mut out: Vec<usize> = Vec::new();
@@ -693,7 +694,7 @@ pub fn vmap_u64_usize_with<F: Fn(u64) -> usize>(v: Vec<u64>, f: F) -> (r: Vec<us
 pub fn vmap_usize_u64_with<F: Fn(usize) -> u64>(v: Vec<usize>, f: F) -> (r: Vec<u64>)
     requires
         forall|a: usize| call_requires(f, (a,)),
-        forall|a: usize, b: u64| call_ensures(f, (a,), b) ==> b == a as u64,
+        forall|a: usize, b: u64| call_ensures(f, (a,), b) ==> b == a as u64, /*@PL:closure_is_the_cast*/
     ensures r@ == seq_u64_of(v@),
 {
     let mut out: Vec<u64> = Vec::new();
